@@ -588,6 +588,7 @@ def strat(tier, opts):
 
 def main(tier, seed, scale=1.0):
     vbuild.build("asan")
+    vbuild.build("plain")        # (the 9 GiB read-back of the sparse cases goes through the plain rdsquashfs)
     n = int((4000 if tier == "quick" else 60000) * scale)
     res = Result(PROP)
     vcommon.run_corpus(PROP, check_case, {"prop": PROP}, res)
@@ -622,6 +623,7 @@ def main(tier, seed, scale=1.0):
 
 def replay(path):
     vbuild.build("asan")
+    vbuild.build("plain")
     c = vcommon.load_replay(path)["case"]
     if isinstance(c, dict) and c.get("bigsparse"):
         res = Result(PROP)
